@@ -17,3 +17,12 @@
 (assert (forall ((b DbSt) (a String)) (=> (not (= (dbProfileErr b a) nilAny)) (= (dbProfile b a) 0))))
 (assert (forall ((b DbSt) (a String)) (=> (and (not (= (dbCfg b a) 0)) (= (dbMetaErr b a) nilAny)) (not (= (dbMeta b a) 0)))))
 (assert (forall ((b DbSt) (a String)) (=> (and (not (= (dbCfg b a) 0)) (= (dbArtErr b a) nilAny)) (not (= (dbArt b a) 0)))))
+; ---- writes through the Database interface (C10): the backend state after a Put is a function of the state before and the
+; arguments; Puts never change which aliases exist apart from the alias put, nor where artifacts are stored
+(declare-fun dbPutCfg (DbSt String Deep) DbSt)
+(declare-fun dbPutArt (DbSt String Deep) DbSt)
+(declare-fun dbArtPath (DbSt String) String)   ; the file an alias's artifact is stored in
+(assert (forall ((s DbSt) (a String) (d Deep) (b String)) (! (= (dbArtPath (dbPutCfg s a d) b) (dbArtPath s b)) :pattern ((dbArtPath (dbPutCfg s a d) b)))))
+(assert (forall ((s DbSt) (a String) (d Deep) (b String)) (! (= (dbArtPath (dbPutArt s a d) b) (dbArtPath s b)) :pattern ((dbArtPath (dbPutArt s a d) b)))))
+(assert (forall ((s DbSt) (a String) (d Deep) (b String)) (! (= (= (dbCfg (dbPutCfg s a d) b) 0) (and (= (dbCfg s b) 0) (not (= a b)))) :pattern ((dbCfg (dbPutCfg s a d) b)))))
+(assert (forall ((s DbSt) (a String) (d Deep) (b String)) (! (= (= (dbCfg (dbPutArt s a d) b) 0) (= (dbCfg s b) 0)) :pattern ((dbCfg (dbPutArt s a d) b)))))
